@@ -66,3 +66,33 @@ func once(f func()) func() {
 	var o sync.Once
 	return func() { o.Do(f) }
 }
+
+var globalMap sync.Map
+
+type registry struct {
+	entries sync.Map
+	ptr     *sync.Map
+}
+
+func (r *registry) take(k string) interface{} {
+	v, ok := r.entries.Load(k)
+	if ok {
+		r.entries.Delete(k)
+		return v
+	}
+	w, ok := r.ptr.Load(k)
+	if ok {
+		r.ptr.Delete(k)
+		return w
+	}
+	return nil
+}
+
+func takeGlobal(k string) interface{} {
+	v, ok := globalMap.Load(k)
+	if ok {
+		globalMap.Delete(k)
+		return v
+	}
+	return nil
+}
